@@ -42,6 +42,19 @@ def gen_cases(tier, seed):
     return cases
 
 
+def probes():
+    """fixed cases run on every check"""
+    V, C, F = g.V, g.C, g.F
+    # Product<(u32, Dual<u32>)> as the column type of a lattice relation (known finding product_lattice_column_not_hash:
+    # Product does not implement Hash, the program does not compile)
+    prod = dict(rels=[("e", 3, "rel"), ("next", 2, "rel"), ("p", 2, ("lat", "prod"))],
+                rules=[dict(heads=[("p", [V("x"), F("prod_of", "a", "b")])], body=[("clause", "e", [V("x"), V("a"), V("b")], [])]),
+                       dict(heads=[("p", [V("y"), F("prod_id", "l")])], body=[("clause", "next", [V("x"), V("y")], []), ("clause", "p", [V("x"), V("l")], [])])],
+                shape="probe_product")
+    inp = {"e": [(0, 1, 5), (0, 3, 7), (1, 2, 2), (2, 0, 9)], "next": [(0, 1), (1, 2), (2, 0)]}
+    return [dict(id="probe_product", prog=prod, inputs=[inp], styles=["probe"])]
+
+
 def _tt(t):
     return tuple(list(x) if isinstance(x, list) else x for x in t)
 
@@ -134,9 +147,12 @@ def run_cases(cases, tag="c03", coq_timeout=60):
             r["valid"] = v[0]
             r["model"] = [decode_model(x, invs[c["id"]]) for x in v[1:]]
         orc = g.Oracle(c["prog"])
+        r["raised"], r["rounds"] = [], []
         for inp in c["inputs"]:
             st = orc.run(inp)
             r["spec"].append(None if st is None else g.canon_state(c["prog"], st))
+            r["raised"].append(max(orc.raised.values()) if orc.raised else 0)
+            r["rounds"].append(orc.rounds)
         out.append(r)
     return out
 
@@ -163,8 +179,12 @@ def compare(r):
         cs = dict(base, inputs=[inp])
         iv = r["impl"][k] if r["impl"] else None
         if iv is None or "snaps" not in iv:
-            mism.append(dict(case=cs, impl=iv, model=None, spec=None, kind="impl_violates_spec", known=None,
-                             what="implementation did not produce a result (compile error / panic / timeout): %s" % json.dumps(iv)[:400]))
+            known = None
+            msg = json.dumps(iv)
+            if iv and "compile_error" in iv and "prod" in lats.values() and "Hash" in msg and "Product" in msg:
+                known = "product_lattice_column_not_hash"
+            mism.append(dict(case=cs, impl=iv, model=None, spec=None, kind="impl_violates_spec", known=known,
+                             what="implementation did not produce a result (compile error / panic / timeout): %s" % msg[:400]))
             continue
         spec = r["spec"][k]
         if spec is None:
@@ -205,22 +225,18 @@ def compare(r):
     return mism
 
 
-def improvements(p, inp):
-    """how often the most improved key of a lattice relation changes its value during the oracle's iteration (diagnostic)"""
-    return 0
-
-
 def tie(tier, seed, replay):
     if replay:
         rp = json.load(open(replay))
         cases = [case_from_json(dict(prog=rp["case"]["prog"], inputs=rp["case"]["inputs"]), "replay_0")]
     else:
-        cases = load_corpus() + gen_cases(tier, seed)
+        cases = probes() + load_corpus() + gen_cases(tier, seed)
     results = []
     chunk = 128
     for i in range(0, len(cases), chunk):
         results += run_cases(cases[i:i + chunk])
     mism, feats, shapes, styles, distinct = [], {}, {}, {}, set()
+    raised_hist, rounds_hist = {}, {}
     nskipped = sum(1 for r in results if r["skipped"])
     nontriv = 0
     for r in results:
@@ -236,6 +252,10 @@ def tie(tier, seed, replay):
         for k, inp in enumerate(r["case"]["inputs"]):
             st = r["case"]["styles"][k]
             styles[st] = styles.get(st, 0) + 1
+            b = min(r["raised"][k], 12)
+            raised_hist[b] = raised_hist.get(b, 0) + 1
+            b = min(r["rounds"][k], 14)
+            rounds_hist[b] = rounds_hist.get(b, 0) + 1
             spec = r["spec"][k]
             derived = spec is not None and any(len(spec[n]) > len(inp.get(n, [])) or sorted(spec[n]) != sorted(map(tuple, inp.get(n, []))) for n in lats)
             if looping and derived:
@@ -250,7 +270,8 @@ def tie(tier, seed, replay):
         sample.append(s)
     return dict(evaluations=sum(len(r["case"]["inputs"]) for r in ok), distinct_nontrivial=len(distinct),
                 rule="lattice programs (shortest / widest path, reachability sets, constant propagation, random monotone programs over u32-max, Dual<u32>, Option<u32>, bool, (u32,u32), Set<u32>, BoundedSet<2,u32>, ConstPropagation<u32>; arities 1-3) x 3-4 inputs (incl. graphs on which one key is improved up to 12 times over as many iterations, lattice-typed input rows); non-trivial = a lattice relation is dynamic in a looping SCC and the run changes a lattice relation; distinct = distinct (plan summary, input)",
-                samples=sample, distribution=dict(programs=len(ok), shapes=shapes, features=feats, input_styles=styles, recursive_changing_runs=nontriv),
+                samples=sample, distribution=dict(programs=len(ok), shapes=shapes, features=feats, input_styles=styles, recursive_changing_runs=nontriv,
+                                                   most_raised_key_times=dict(sorted(raised_hist.items())), naive_rounds=dict(sorted(rounds_hist.items()))),
                 mismatches=mism,
                 trusted_base=["FRONT hook (ascent_macro/src/verif_hook.rs) printing the MIR plan; gen/c03_gen.py pairing the dumped plan with the source rules (core-form programs: checked by shape) and rendering Rust / Coq; gen/prog.py generated crates",
                               "gen/c03_vocab.py: the coding of lattice values as integers and the monotone vocabulary, written three times (Rust templates, coq/LatEngine/LatVocab.v, python); a disagreement between them shows up as a mismatch",
